@@ -14,8 +14,8 @@ MRest(s) == CASE s = "m" -> "" [] s = "m7" -> "7" [] s = "m7+" -> "7+" [] s = "m
               [] s = "m9" -> "9" [] s = "m11" -> "11" [] s = "m13" -> "13"
 MKeys == {"m", "m7", "m7+", "m7b5", "m6", "m9", "m11", "m13"}
 BigMRest(s) == CASE s = "M" -> "" [] s = "M7+5" -> "7+5" [] s = "M7+" -> "7+" [] s = "M7" -> "7" [] s = "M6" -> "6"
-                 [] s = "M9" -> "9" [] s = "M13" -> "13"
-BigMKeys == {"M", "M7+5", "M7+", "M7", "M6", "M9", "M13"}
+                 [] s = "M9" -> "9" [] s = "M13" -> "13" [] s = "M11" -> "11"
+BigMKeys == {"M", "M7+5", "M7+", "M7", "M6", "M9", "M13", "M11"}
 AliasPairs == {<<s, a \o MRest(s)>> : s \in MKeys, a \in {"min", "mi", "-"}} \cup
               {<<s, a \o BigMRest(s)>> : s \in BigMKeys, a \in {"maj", "ma"}} \cup
               {<<"m/M7", a \o "/" \o b \o "7">> : a \in {"m", "min", "mi", "-"}, b \in {"M", "maj", "ma"}} \cup
